@@ -600,7 +600,7 @@ class Splicer:
             if name == "all":
                 ghost_check(slines, "all")
                 all_sections[int(args.strip())] = (slines, sline_no)
-        for (s, e, rep, rule) in mechanical_rewrites(text, toks, kv.get("r12")):
+        for (s, e, rep, rule) in mechanical_rewrites(text, toks, kv.get("r12", self.defaults.get("r12"))):
             meta = {}
             if rule == "R11c":
                 m = re.search(r"/\*@ALL(\d+)@\*/", rep)
